@@ -434,10 +434,16 @@ func (b *srvBatch) runStreamConn(ci int) {
 		}
 		if err != nil && !fail && received < cfg.Queries {
 			// the stream stopped
-			if len(d.Rest()) != 0 {
-				b.corrupt("partial-frame-at-end", fmt.Sprintf("the connection ended/stalled (%v) inside a frame: %d bytes of an announced %s received, %d of %d replies intact before", err, len(d.Rest()), announced(d.Rest()), received, cfg.Queries), map[string]any{"conn": ci, "rest_head": hexHead(d.Rest(), 48)})
-			} else if b.h.bad.Load() == 0 {
-				rep.Inconclusive("server batch %+v conn %d: stream ended (%v) after %d of %d replies at a frame boundary", cfg, ci, err, received, cfg.Queries)
+			var ne net.Error
+			timeout := errors.As(err, &ne) && ne.Timeout()
+			allReturned := b.h.returned.Load() >= int64(cfg.Conns*cfg.Queries)
+			switch {
+			case len(d.Rest()) != 0 && (!timeout || allReturned):
+				// closed by the server, or silent for 20 s after every handler of the
+				// batch had returned its reply: nothing more will be written
+				b.corrupt("partial-frame-at-end", fmt.Sprintf("the connection ended/went silent (%v) inside a frame: %d bytes of an announced %s received, %d of %d replies intact before", err, len(d.Rest()), announced(d.Rest()), received, cfg.Queries), map[string]any{"conn": ci, "rest_head": hexHead(d.Rest(), 48)})
+			case b.h.bad.Load() == 0:
+				rep.Inconclusive("server batch %+v conn %d: stream ended (%v) after %d of %d replies (%d bytes of a frame pending, %d handlers returned)", cfg, ci, err, received, cfg.Queries, len(d.Rest()), b.h.returned.Load())
 			}
 			fail = true
 		}
@@ -500,9 +506,10 @@ func (b *srvBatch) runDoQConn(ci int) {
 					rep.Nontrivial(fmt.Sprintf("srv|doq|n%d|raw%v|d%d", p.n, p.raw, p.delay))
 					continue
 				}
-				if len(data) == 0 {
+				var ne net.Error
+				if len(data) == 0 || (err != nil && errors.As(err, &ne) && ne.Timeout()) {
 					if b.h.bad.Load() == 0 {
-						rep.Inconclusive("doq stream for query %d returned no data (%v)", seq, err)
+						rep.Inconclusive("doq stream for query %d returned %d bytes and %v", seq, len(data), err)
 					}
 					failed.Store(true)
 					continue
